@@ -116,6 +116,8 @@ mod replay {
     use std::time::{Duration, Instant};
 
     const STEP_TIMEOUT: Duration = Duration::from_secs(4);
+    /// re-runs of a schedule whose select! step polled the other ready branch first (probability about 1/2 each)
+    const ATTEMPTS: usize = 20;
 
     #[derive(Clone, Copy, PartialEq, Eq, Hash, Debug)]
     enum Tid {
@@ -628,6 +630,11 @@ mod replay {
                 Some(("ap.waker", _)) if !self.p.fix_c => {}
                 _ => return Err(Fail::Bad),
             }
+            if self.flag() {
+                // Both branches of the select! will be ready. The accept branch is only ready once the reactor has
+                // delivered the readiness of the listening socket: give it a moment (a failed guess costs a re-run).
+                std::thread::sleep(Duration::from_millis(15));
+            }
             let mut guard = 0;
             loop {
                 guard += 1;
@@ -1009,7 +1016,7 @@ mod replay {
     }
 
     pub fn replay(p: impl Fn() -> Params, sched: &[(u8, usize)]) -> X {
-        for _attempt in 0..8 {
+        for _attempt in 0..ATTEMPTS {
             let mut run = match Run::start(p()) { Some(r) => r, None => { if debug() { eprintln!("start failed"); } continue } };
             let mut obs = Vec::new();
             let mut fail = None;
